@@ -159,6 +159,9 @@ func (env *Env) eval(e ast.Expr) Val {
 		p := env.eval(x.X)
 		return fc.loadPtr(env.st, p)
 	case *ast.UnaryExpr:
+		if x.Op == token.AND {
+			return env.addrOf(x.X)
+		}
 		v := env.eval(x.X)
 		switch x.Op {
 		case token.NOT:
@@ -616,6 +619,15 @@ func (env *Env) evalCall(x *ast.CallExpr) Val {
 			ev := env.eval(x.Args[0])
 			sv := env.eval(x.Args[1])
 			return boolVal(fc.errorsIs(ev, sv))
+		case "locked", "rlocked":
+			// locked(&x.mu): the mutex is write-held (rlocked: read-held) by the executing function
+			p := env.eval(x.Args[0])
+			name := "lock|w"
+			if id.Name == "rlocked" {
+				name = "lock|r"
+			}
+			arr := env.st.get(name, arraySort(SortRef, SortBool))
+			return boolVal(app("select", arr, p.L[0]))
 		case "haskey":
 			m := env.eval(x.Args[0])
 			mt := m.T.Underlying().(*types.Map)
@@ -827,4 +839,44 @@ func (env *Env) specMethod(recv Val, mname string) Val {
 		fc.cur.assume(and(facts...))
 	}
 	return res
+}
+
+// addrOf evaluates &x.f for a field selection through a pointer.
+func (env *Env) addrOf(e ast.Expr) Val {
+	sel, ok := e.(*ast.SelectorExpr)
+	if !ok {
+		userErr("address-of is only supported on field selections: &%s", exprString(e))
+	}
+	base := env.eval(sel.X)
+	obj, index, _ := types.LookupFieldOrMethod(base.T, true, env.pkg, sel.Sel.Name)
+	if _, isVar := obj.(*types.Var); !isVar {
+		if n := namedOf(base.T); n != nil && n.Obj().Pkg() != nil {
+			obj, index, _ = types.LookupFieldOrMethod(base.T, true, n.Obj().Pkg(), sel.Sel.Name)
+		}
+	}
+	if _, isVar := obj.(*types.Var); !isVar {
+		userErr("no field %s in %s", sel.Sel.Name, base.T)
+	}
+	cur := base
+	for i, fi := range index {
+		p, isPtr := cur.T.Underlying().(*types.Pointer)
+		if !isPtr {
+			userErr("&%s: base is not addressable through a pointer", exprString(e))
+		}
+		st := p.Elem()
+		ft := st.Underlying().(*types.Struct).Field(fi).Type()
+		last := i == len(index)-1
+		if ptrIsThin(ft) {
+			cur = Val{T: types.NewPointer(ft), L: []string{env.fc.subRef(st, fi, cur.L[0])}}
+			continue
+		}
+		if !last {
+			// pointer-typed intermediate field: load it
+			cur = env.fieldOfObject(cur, st, fi)
+			continue
+		}
+		k := env.fc.eng.fieldID(st, fi)
+		cur = Val{T: types.NewPointer(ft), L: []string{bvLit(uint64(k), 16), cur.L[0], bvLit(0, 64)}}
+	}
+	return cur
 }
